@@ -119,6 +119,12 @@ func okState(pre []int, ob []int) bool {
 // unit executes one instruction from the given state. placed = data bytes to
 // put at addresses before running.
 func (r *cpuRig) unit(pre []int, ob []int, placed [][]int) []any {
+	return r.unitKey(pre, ob, placed, -1)
+}
+
+// unitKey: as unit; a key event (what the display's callback does: CPU.OnInput) arrives after machine cycle keyAfter
+// of the instruction (-1: never). It ends STOP and nothing else: an instruction under way is not disturbed.
+func (r *cpuRig) unitKey(pre []int, ob []int, placed [][]int, keyAfter int) []any {
 	m := r.m
 	for i := 0; i < 3; i++ {
 		r.poke(pre[9]+i, ob[i])
@@ -138,6 +144,9 @@ func (r *cpuRig) unit(pre []int, ob []int, placed [][]int) []any {
 		r.cycle = n + 1
 		m.CPU.ExecuteMachineCycle()
 		n++
+		if n == keyAfter {
+			m.CPU.OnInput()
+		}
 		if m.CPU.VerifAtBoundary() || n >= 12 {
 			break
 		}
@@ -678,6 +687,25 @@ func cpuGen(c *Ctx) {
 						return s
 					})
 					e.add(rig.unit(pre, ob, place(rng, pre, ob)))
+				}
+			}
+		}
+		e.flush()
+	}
+	if c.Want("keys") {
+		// a key event in the middle of an instruction (after its k-th machine cycle, every k in turn)
+		rng := c.Rand(112)
+		e := em("keys")
+		reps := 1
+		if thorough {
+			reps = 6
+		}
+		for _, o := range ops {
+			for rep := 0; rep < reps; rep++ {
+				for k := 0; k <= 5; k++ {
+					ob := opBytes(o.op, o.cb, rng.Intn(256), 0xd0+rng.Intn(8))
+					pre := draw(rng, ob, func() []int { return regionRegs(rng, 0xd000, 0xdd00) })
+					e.add(rig.unitKey(pre, ob, place(rng, pre, ob), k))
 				}
 			}
 		}
